@@ -8,6 +8,7 @@ import (
 	"errors"
 	"fmt"
 	"sync"
+	"sync/atomic"
 	"testing"
 
 	"github.com/fluhus/biostuff/align"
@@ -62,7 +63,7 @@ func genOpt(nonZeroOpen bool) func(t *rapid.T, thorough bool) OptCase {
 var refSelfCheck sync.Once
 var refSelfCheckErr error
 var refSelfCheckCases int
-var refCounted bool
+var refCounted atomic.Bool
 
 // validateReference checks the three-state reference against brute-force enumeration of all
 // alignments (and, for Local, all substring pairs) on every pair of sequences of length <= 4
@@ -99,8 +100,7 @@ func checkOptimal(c OptCase, o *Obs, wantNonZeroOpen bool) error {
 	if err != nil {
 		panic(err) // harness defect, not a violation
 	}
-	if !refCounted {
-		refCounted = true
+	if refCounted.CompareAndSwap(false, true) {
 		o.Count("reference_validated_against_bruteforce_pairs", n)
 	}
 	switch c.Kind {
@@ -350,6 +350,8 @@ func TestC09(t *testing.T) { Run(t, propC09()) }
 
 func FuzzGenC09(f *testing.F) { RunFuzz(f, propC09()) }
 
+func TestRaceC09(t *testing.T) { RunConcurrent(t, propC09(), 4) }
+
 func propC10() Prop[OptCase] {
 	return Prop[OptCase]{ID: "C10", Gen: genOpt(true), Key: keyOpt,
 		Exhaustive: func(thorough bool, emit func(OptCase) bool) { exhaustiveOpt(thorough, []int{-1, -2, -5}, emit) },
@@ -365,3 +367,5 @@ func propC10() Prop[OptCase] {
 func TestC10(t *testing.T) { Run(t, propC10()) }
 
 func FuzzGenC10(f *testing.F) { RunFuzz(f, propC10()) }
+
+func TestRaceC10(t *testing.T) { RunConcurrent(t, propC10(), 4) }
